@@ -639,9 +639,19 @@ class Node(
             and self.recovery is not None
             and self.graph_root is self
         ):
-            self.save(
-                backend=self.recovery, filename=self.as_path().joinpath("recovery")
-            )
+            try:
+                self.save(
+                    backend=self.recovery,
+                    filename=self.as_path().joinpath("recovery"),
+                )
+            except Exception as e:
+                # We are on the way out with the exception of the run itself; a graph
+                # that cannot be stored (e.g. it holds data that cannot be pickled)
+                # must not replace that exception by a complaint about the recovery file
+                logger.warning(
+                    f"{self.full_label} failed, and writing its recovery file failed "
+                    f"too: {e.__class__.__name__}: {e}"
+                )
 
         if self._do_clean:
             self._clean_graph_directory()
